@@ -66,6 +66,12 @@ def Permitted (f : Fifo) : List Op → Prop
   | [] => True
   | op :: ops => permitted f op ∧ Permitted (step f op).1 ops
 
+def decPermitted : (f : Fifo) → (ops : List Op) → Decidable (Permitted f ops)
+  | _, [] => isTrue trivial
+  | f, op :: ops => @instDecidableAnd _ _ inferInstance (decPermitted (step f op).1 ops)
+
+instance (f : Fifo) (ops : List Op) : Decidable (Permitted f ops) := decPermitted f ops
+
 def run (f : Fifo) : List Op → List Out
   | [] => []
   | op :: ops => (step f op).2 :: run (step f op).1 ops
